@@ -2,7 +2,7 @@
 Composition of the per-rule value lemmas over whole trees: `refineF false` (the repaired rule set) preserves
 the value of every expression without Max/Min nodes.
 -/
-import SymVerif.Lemmas.C35Pow
+import SymVerif.Lemmas.C35Ext
 
 namespace SymVerif.C35
 open SymVerif SymVerif.Queries SymVerif.Refine SymVerif.C34
@@ -140,16 +140,16 @@ theorem extHeads_not {h : String} {args : List Expr} (hx : hasHead extHeads (.ap
   simp only [Bool.or_eq_false_iff]
   exact this
 
-/-- **refine preserves the value** (repaired rule set, Max/Min-free expressions): wherever the input has a real
-    value under an assignment satisfying the facts, a changed result has the same value. -/
+/-- **refine preserves the value** (repaired rule set): wherever the input has a real value under an assignment
+    satisfying the facts, a changed result has the same value. -/
 theorem refineF_value {ρ : String → ℝ} {A : Assumptions} (hA : FactsSat ρ A) :
-    ∀ (fuel : Nat) (e r : Expr) (v : ℝ), wf e = true → hasHead extHeads e = false →
+    ∀ (fuel : Nat) (e r : Expr) (v : ℝ), wf e = true →
       refineF false A fuel e = .ok (some r) → evalR ρ e = some v → evalR ρ r = some v := by
   intro fuel
   induction fuel with
-  | zero => intro e r v _ _ h _; simp [refineF] at h
+  | zero => intro e r v _ h _; simp [refineF] at h
   | succ n ih =>
-    intro e r v hw hx hr hv
+    intro e r v hw hr hv
     cases e with
     | add c ts =>
       simp only [refineF] at hr
@@ -164,7 +164,7 @@ theorem refineF_value {ρ : String → ℝ} {A : Assumptions} (hA : FactsSat ρ 
           simp [hs] at hv
           subst hv
           have hl := mapArgs_value hm
-            (fun a ha r' v' hfa hva => ih a r' v' (wf_argsOf hw a ha) (hasHead_argsOf hx a ha) hfa hva) hs
+            (fun a ha r' v' hfa hva => ih a r' v' (wf_argsOf hw a ha) hfa hva) hs
           rw [evalR_sumRaw, hl]; rfl
       · cases hr
     | mul c fs =>
@@ -180,12 +180,11 @@ theorem refineF_value {ρ : String → ℝ} {A : Assumptions} (hA : FactsSat ρ 
           simp [hs] at hv
           subst hv
           have hl := mapArgs_value hm
-            (fun a ha r' v' hfa hva => ih a r' v' (wf_argsOf hw a ha) (hasHead_argsOf hx a ha) hfa hva) hs
+            (fun a ha r' v' hfa hva => ih a r' v' (wf_argsOf hw a ha) hfa hva) hs
           rw [evalR_prodRaw, hl]; rfl
       · cases hr
     | pow b x =>
       have hwb : wf b = true ∧ wf x = true := by simpa [wf] using hw
-      have hxb : hasHead extHeads b = false ∧ hasHead extHeads x = false := by simpa [hasHead] using hx
       simp only [refineF] at hr
       cases hb : refineF false A n b with
       | error err => simp [hb] at hr
@@ -217,7 +216,7 @@ theorem refineF_value {ρ : String → ℝ} {A : Assumptions} (hA : FactsSat ρ 
             | none => rw [hvb, powSem_base_none] at hv; cases hv
             | some vb =>
               have hb' : evalR ρ (Res.get b rb) = some vb :=
-                res_get_value hvb (fun r' hr' => ih b r' vb hwb.1 hxb.1 (by rw [hb, hr']) hvb)
+                res_get_value hvb (fun r' hr' => ih b r' vb hwb.1 (by rw [hb, hr']) hvb)
               rw [hvb] at hv
               rw [hb']
               cases rx with
@@ -227,10 +226,23 @@ theorem refineF_value {ρ : String → ℝ} {A : Assumptions} (hA : FactsSat ρ 
                   intro k hk; subst hk; exact refineF_int_none hx'
                 have hpos := powSem_nonint_pos hxi hv
                 obtain ⟨vx, hvx, rfl⟩ := powSem_pos hpos hv
-                have hxr : evalR ρ xr = some vx := ih x xr vx hwb.2 hxb.2 hx' hvx
+                have hxr : evalR ρ xr = some vx := ih x xr vx hwb.2 hx' hvx
                 exact powSem_pos_eq hpos hxr
     | app h args =>
-      have hnm := extHeads_not hx
+      by_cases hext : (h == "Max" || h == "Min") = true
+      · -- Max / Min: the arguments are unchanged, the dropped ones are dominated
+        simp only [refineF, hext, if_true] at hr
+        have hwargs : ∀ a ∈ args, wf a = true := wfList_mem (by simpa [wf] using hw)
+        split at hr
+        · cases hr
+        · simp at hr
+          obtain ⟨_, rfl⟩ := hr
+          simp only [Bool.or_eq_true, beq_iff_eq] at hext
+          rcases hext with rfl | rfl
+          · simpa using maxRule_value hA hwargs hv
+          · simpa using minRule_value hA hwargs hv
+        · cases hr
+      have hnm : (h == "Max" || h == "Min") = false := by simpa using hext
       simp only [refineF, hnm, Bool.false_eq_true, if_false] at hr
       split at hr
       · -- Interval: has no real value
@@ -243,9 +255,6 @@ theorem refineF_value {ρ : String → ℝ} {A : Assumptions} (hA : FactsSat ρ 
         · -- one argument
           rename_i a
           have hwa : wf a = true := wf_app_single hw
-          have hxa : hasHead extHeads a = false := by
-            simp only [hasHead, hasHeadList, Bool.or_eq_false_iff] at hx
-            exact hx.2.1
           split at hr
           · split at hr
             · -- argument unchanged: the rule of the node
@@ -257,7 +266,7 @@ theorem refineF_value {ρ : String → ℝ} {A : Assumptions} (hA : FactsSat ρ 
               · simp at hr
                 subst hr
                 obtain ⟨va, hva, hs⟩ := evalR_app_single hv
-                have := ih a a' va hwa hxa ha' hva
+                have := ih a a' va hwa ha' hva
                 simp [evalR, evalArgs, this, hs]
             · cases hr
           · cases hr
